@@ -2,7 +2,10 @@
    prediction = canonical rendering of  map (on_wire g) (file_requests canon_mime fmt cfg [] items)   (code-shaped model)
    verdict    = the implementation's observation equals the canonical rendering of the format-independent
                 specification (spec_method / e_uri / spec_body / spec_hdrs / spec_host, tls = ssl, arrived at the target),
-                the run succeeded and the connection-count flag is 1. *)
+                the run succeeded, the connection counts satisfy the extracted conn_ok (Model/HttpConns.v; theorem C09_conn_spec)
+                and the numbers of distinct http clients per pool satisfy the extracted clients_ok (theorem C09_clients_spec);
+                the prediction carries the model's own number of distinct clients (instance_clients / distinct_clients) and
+                echoes the connection counts when conn_ok accepts them (the counts are bounded, not determined, by the property). *)
 open Model
 open Conv
 
@@ -50,13 +53,13 @@ let parse_item () : item =
 let bytes_of_string (s : string) : n list = List.init (String.length s) (fun i -> n_of_int (Char.code s.[i]))
 
 (* parse the observation's records *)
-let parse_obs (o : string) : (string * string * int * rc list) option =
+let parse_obs (o : string) : (string * string * string * int * rc list) option =
   try
     let parts = List.map String.trim (String.split_on_char '|' o) in
     match parts with
     | [] -> None
     | head :: recs ->
-        let (run, conn, n) = Scanf.sscanf head "run=%s conn=%s n=%d" (fun a b c -> (a, b, c)) in
+        let (run, conn, cl, n) = Scanf.sscanf head "run=%s conn=%s cl=%s n=%d" (fun a b c d -> (a, b, c, d)) in
         let one (s : string) : rc =
           let t = ref (String.split_on_char ' ' s) in
           let nx () = match !t with [] -> failwith "short rec" | x :: r -> t := r; x in
@@ -64,12 +67,20 @@ let parse_obs (o : string) : (string * string * int * rc list) option =
           let nh = int_of_string (nx ()) in
           let hdrs = List.init nh (fun _ -> let k = nx () in let nv = int_of_string (nx ()) in (k, List.init nv (fun _ -> nx ()))) in
           { srv; tls; meth; uri; host; body; hdrs } in
-        Some (run, conn, n, List.map one recs)
+        Some (run, conn, cl, n, List.map one recs)
   with _ -> None
 
-let render (recs : rc list) : string =
+let render (conn : string) (cl : string) (recs : rc list) : string =
   let ls = List.sort compare (List.map show recs) in
-  Printf.sprintf "run=ok conn=1 n=%d%s" (List.length ls) (String.concat "" (List.map (fun l -> " | " ^ l) ls))
+  Printf.sprintf "run=ok conn=%s cl=%s n=%d%s" conn cl (List.length ls) (String.concat "" (List.map (fun l -> " | " ^ l) ls))
+
+(* shared-client block of the case: n | d<N> | e<N> *)
+let parse_sc (s : string) : shared_cfg =
+  if s = "" || s = "n" then { sc_enabled = false; sc_number = z_of_int 0 }
+  else { sc_enabled = (s.[0] = 'e'); sc_number = z_of_int (int_of_string (String.sub s 1 (String.length s - 1))) }
+
+let ints_of (sep : char) (s : string) : int list option =
+  try Some (List.map int_of_string (String.split_on_char sep s)) with _ -> None
 
 (* which header key differs, and is it a key both the entry (incl. in-file headers) and the configuration define? *)
 let classify_hdr (both : string list) (a : rc) (b : rc) : string =
@@ -87,14 +98,18 @@ let predict (c : string) (obs : string) : string * string * bool =
   | "wire" ->
       let f = parse_fmt (next ()) in
       let ssl = bool_of_field (next ()) in
-      let _ka = next () in
-      let _inst = num () in
+      let ka = bool_of_field (next ()) in
+      let (inst, sc) = (match String.split_on_char ':' (next ()) with
+                        | [i] -> (int_of_string i, parse_sc "n")
+                        | i :: s :: _ -> (int_of_string i, parse_sc s)
+                        | [] -> failwith "instances") in
       let tgt = next () in
       let _preload = next () in
       let _resp = next () in
       let pools = num () in
-      let _late = next () in
-      let _pause = next () in
+      let late = bool_of_field (next ()) in
+      let pause = num () in
+      let late = late && pause = 0 in
       let passes = (let p = num () in if p < 1 then 1 else p) in
       let cfg = parse_kvs (num ()) in
       let items = List.init (num ()) (fun _ -> parse_item ()) in
@@ -113,13 +128,42 @@ let predict (c : string) (obs : string) : string * string * bool =
       let cfgkeys = List.map (fun (k, _) -> hx (canon_mime k)) cfg in
       let entkeys = List.concat_map (function IHdr (k, _) -> [hx (canon_mime k)] | IEntry e -> List.map (fun (k, _) -> hx (canon_mime k)) e.e_hdrs) items in
       let both = List.filter (fun k -> List.mem k entkeys) cfgkeys in
-      let pred = render model in
-      let want = render sp in
+      (* clients: per pool the engine bound b guns (b <= instances: it stops starting instances when the schedule is used up, so b
+         is bounded, not determined); the model's number of distinct clients among b bound guns is the prediction *)
+      let parsed = parse_obs obs in
+      let model_distinct b = List.length (distinct_clients (instance_clients sc (nat_of_int b))) in
+      let obs_cl = (match parsed with
+        | Some (_, _, cl, _, _) ->
+            let ps = List.map (ints_of '/') (String.split_on_char ',' cl) in
+            if List.length ps = pools && List.for_all (function Some [_; b] -> 0 <= b && b <= inst | _ -> false) ps
+            then Some (List.map (function Some [d; b] -> (d, b) | _ -> (0, 0)) ps) else None
+        | None -> None) in
+      let cl_model = (match obs_cl with
+        | Some ps -> String.concat "," (List.map (fun (_, b) -> Printf.sprintf "%d/%d" (model_distinct b) b) ps)
+        | None -> String.concat "," (List.init pools (fun _ -> Printf.sprintf "%d/%d" (model_distinct inst) inst))) in
+      (* specification side: clients_ok per pool, conn_ok on the carrying and on the accepted connections *)
+      let cl_ok = (match obs_cl with
+        | Some ps -> List.for_all (fun (d, b) -> clients_ok sc (nat_of_int b) (nat_of_int d)) ps
+        | None -> false) in
+      let conn_text, conn_good = (match parsed with
+        | Some (_, conn, _, _, recs) ->
+            (match ints_of '/' conn with
+             | Some [carrying; accepted; probes] ->
+                 let nt = List.length (List.filter (fun r -> String.length r.srv > 0 && r.srv.[0] = 'T') recs) in
+                 let want_probes = if tgt = "name" && not late then pools else 0 in
+                 let good = probes = want_probes
+                   && conn_ok ka sc.sc_enabled (nat_of_int (inst * pools)) (nat_of_int nt) (nat_of_int carrying)
+                   && conn_ok ka sc.sc_enabled (nat_of_int (inst * pools + probes)) (nat_of_int (nt + probes)) (nat_of_int accepted) in
+                 ((if good then conn else "outside-conn_ok"), good)
+             | _ -> ("unparsable", false))
+        | None -> ("unparsable", false)) in
+      let pred = render conn_text cl_model model in
+      let want = render conn_text cl_model sp in
       let verdict =
-        if obs = want then "ok"
-        else match parse_obs obs with
+        if obs = want && conn_good && cl_ok then "ok"
+        else match parsed with
           | None -> "BAD:unparsable-observation"
-          | Some (run, conn, n, recs) ->
+          | Some (run, _conn, _cl, n, recs) ->
               if run <> "ok" then "BAD:run-failed"
               else if n <> List.length sp then "BAD:request-count"
               else begin
@@ -130,7 +174,7 @@ let predict (c : string) (obs : string) : string * string * bool =
                   | x :: ar, y :: br -> if show x = show y then first_diff ar br else Some (x, y)
                   | _ -> None in
                 match first_diff so ss with
-                | None -> if conn <> "1" then "BAD:connection-count" else "BAD:other"
+                | None -> if not cl_ok then "BAD:client-sharing" else if not conn_good then "BAD:connection-count" else "BAD:other"
                 | Some (x, y) ->
                     if x.srv <> y.srv then "BAD:wrong-server"
                     else if x.tls <> y.tls then "BAD:scheme"
